@@ -22,6 +22,7 @@ BUF_RE = re.compile(r"^(&(mut )?)*(\[u8\]|\[u8; [^\]]+\]|std::vec::Vec<u8>|std::
                     r"std::borrow::Cow<'[^,]*, \[u8\]>|str|std::string::String|memmap2::Mmap)$")
 BUFISH_RE = re.compile(r"\[u8\]|\[u8; |Vec<u8>|slice::Iter<'[^,]*, u8>|Chunks|memmap2::Mmap")
 
+LOOKUP_CALLS = ("get", "get_mut", "get_key_value", "contains_key", "contains", "entry", "remove", "get_or_insert_with")
 LEN_CALLS = ("len", "is_empty", "capacity", "as_ptr", "as_mut_ptr", "remaining", "size")
 PASS_BUF_CALLS = ("deref", "deref_mut", "as_ref", "as_mut", "as_slice", "as_mut_slice", "as_bytes", "borrow",
                   "index", "index_mut", "get", "get_mut", "get_unchecked", "get_unchecked_mut", "split_at",
@@ -125,6 +126,8 @@ class FnTaint:
                 self._new_root(p, "param %s" % fn.local_name(p), int_width(fn.ty(p)) or 64)
         self._seed()
         self._propagate()
+        if self._container_pass():
+            self._propagate()
 
     def _new_root(self, l, desc, width):
         rid = len(self.root_desc)
@@ -208,6 +211,43 @@ class FnTaint:
                             if is_bufish(fn.ty(l)):
                                 self.buf.add(l)
 
+    def _container_pass(self):
+        """values stored into containers (insert/push) taint the container unless the value was
+        validated (guard-protected) at the store site"""
+        fn = self.fn
+        g = None
+        changed = False
+        for b, c in fn.calls():
+            last = c["f"].rsplit("::", 1)[-1]
+            if last not in ("insert", "push", "push_back", "push_front") or len(c["a"]) < 2:
+                continue
+            if not any(k in c["f"] for k in ("HashMap", "BTreeMap", "Vec", "VecDeque", "HashSet", "FastVec")):
+                continue
+            r0 = op_local(c["a"][0])
+            if r0 is None:
+                continue
+            targets = set(fn.points_to(r0)) or {r0}
+            loc = (b, len(fn.stmts(b)))
+            for a in c["a"][-1:]:          # the stored value (for maps: not the key)
+                l = op_local(a)
+                if l is None or not scalar_like(fn.ty(l)):
+                    continue
+                roots = self.roots_at(loc, a)
+                if not roots:
+                    continue
+                if g is None:
+                    g = Guards(fn, self)
+                if g.protecting(b, roots, l, relational=True):
+                    continue
+                for t in targets:
+                    if roots - self.roots.get(t, set()):
+                        self.roots[t] |= roots
+                        changed = True
+                self.site_roots[loc] |= roots
+        if changed:
+            self._dmemo.clear()
+        return changed
+
     def _call_effect(self, c, dst):
         """effect of a call on its destination given current facts; returns changed"""
         fn = self.fn
@@ -223,6 +263,9 @@ class FnTaint:
         changed = False
         if last in LEN_CALLS:
             return False
+        if last in LOOKUP_CALLS and ("HashMap" in f or "BTreeMap" in f or "HashSet" in f):
+            arg_locals = arg_locals[:1]
+            s_roots = set(self.roots.get(arg_locals[0], set())) if arg_locals else set()
         # clamp: result bounded by the untrusted-free argument
         if last in CLAMP_CALLS and len(arg_locals) + sum(1 for a in c["a"] if op_const(a)) >= 2:
             consts = [a for a in c["a"] if op_const(a) is not None]
@@ -625,8 +668,12 @@ class FnTaint:
         if key in self._dmemo:
             return self._dmemo[key]
         if key in self._dprog:
-            return set(self.roots.get(x, set()))     # loop-carried: flow-insensitive fallback
+            # loop-carried dependency: contributes nothing beyond the other reaching definitions
+            # (least fixpoint); results computed under this assumption are not memoised
+            self._cyc = getattr(self, "_cyc", 0) + 1
+            return set()
         self._dprog.add(key)
+        cyc0 = getattr(self, "_cyc", 0)
         r = set(self.site_new.get(loc, ()))
         try:
             if kind == "assign":
@@ -654,6 +701,10 @@ class FnTaint:
                 any_buf = any(a in self.buf for a in args if a is not None)
                 if last in LEN_CALLS:
                     r = set()
+                elif last in LOOKUP_CALLS and ("HashMap" in c["f"] or "BTreeMap" in c["f"] or "HashSet" in c["f"]):
+                    # the value stored in a map does not derive from the key used to find it
+                    a0 = args[0] if args else None
+                    r = self.local_roots_at(loc, a0, depth) if a0 is not None else set()
                 elif last in CLAMP_CALLS and self._clamp_clean(loc, c, depth):
                     r = set()
                 elif last in ("saturating_sub", "checked_sub") and len(c["a"]) == 2 and \
@@ -666,7 +717,11 @@ class FnTaint:
                     for i, a in enumerate(args):
                         if a is None or (dep is not None and (i + 1) not in dep):
                             continue
-                        r |= self.local_roots_at(loc, a, depth)
+                        ra = self.local_roots_at(loc, a, depth)
+                        if ra and c.get("loc") and self.summaries is not None and scalar_like(fn.ty(a)) \
+                                and not self.summaries.scalar_passes(c["f"], i + 1):
+                            continue     # the callee clamps / validates this argument before returning it
+                        r |= ra
                     if c["d"][0] != x:
                         # x was written through a &mut argument
                         r |= self.roots.get(x, set())
@@ -674,7 +729,8 @@ class FnTaint:
                 r |= self.roots.get(x, set())
         finally:
             self._dprog.discard(key)
-        self._dmemo[key] = r
+        if getattr(self, "_cyc", 0) == cyc0 or not self._dprog:
+            self._dmemo[key] = r
         return r
 
     def _trusted_clamp(self, loc, rv, depth):
@@ -754,11 +810,16 @@ class Guards:
                     ra, rb = ft.roots_at(loc, rv[2]), ft.roots_at(loc, rv[3])
                     ca = op_const(rv[2]) is not None or not ra
                     cb = op_const(rv[3]) is not None or not rb
+                    flip = {"Lt": "Gt", "Le": "Ge", "Gt": "Lt", "Ge": "Le", "Eq": "Eq", "Ne": "Ne"}[rv[1]]
                     if ra and cb:
                         out.append((ra, rv[1], neg, "%s@%s" % (rv[1], pl[3]), op_local(rv[2])))
                     if rb and ca:
-                        flip = {"Lt": "Gt", "Le": "Ge", "Gt": "Lt", "Ge": "Le", "Eq": "Eq", "Ne": "Ne"}[rv[1]]
                         out.append((rb, flip, neg, "%s@%s" % (rv[1], pl[3]), op_local(rv[3])))
+                    if ra and rb and not (ra & rb) and rv[1] in ("Lt", "Le", "Gt", "Ge"):
+                        # relational check between two untrusted values (index < declared count):
+                        # accepted only for index-like sinks, marked with a trailing "~"
+                        out.append((ra, rv[1], neg, "%s@%s~" % (rv[1], pl[3]), op_local(rv[2])))
+                        out.append((rb, flip, neg, "%s@%s~" % (rv[1], pl[3]), op_local(rv[3])))
                 elif rv[0] == "use" and op_place(rv[1]) and len(op_place(rv[1])) == 1:
                     out += self._atoms(op_local(rv[1]), neg, depth + 1)
                 elif rv[0] == "un" and rv[1] == "Not":
@@ -874,7 +935,7 @@ class Guards:
                         large = [tt]
                 self.items.append((b, roots, large, desc, op, cl))
 
-    def protecting(self, sink_block, roots, sink_local=None):
+    def protecting(self, sink_block, roots, sink_local=None, relational=False):
         """guards that dominate the sink, share a root with the operand and whose 'large' edge
         (or, for checking helpers, some edge) cannot reach the sink"""
         fn = self.fn
@@ -882,6 +943,8 @@ class Guards:
         anc = None
         for b, groots, large, desc, op, cl in self.items:
             if not (groots & roots):
+                continue
+            if desc.endswith("~") and not relational:
                 continue
             if b == sink_block or not fn.dominates(b, sink_block):
                 continue
@@ -966,7 +1029,7 @@ def check_sinks(ctx, fn, ft, rule_prefix, kinds=("alloc", "index", "slice", "uns
             c = op_const(lenop)
             if c is not None and isinstance(c[0], int) and width < 64 and (1 << width) <= c[0]:
                 why = "index type-bounded (%d bits) for array of %d" % (width, c[0])
-        prot = g.protecting(b, roots, op_local(op)) if why is None else []
+        prot = g.protecting(b, roots, op_local(op), relational=kind in ("index", "slice")) if why is None else []
         ok = bool(why) or bool(prot)
         l = op_local(op)
         nm = fn.local_name(l) if l is not None else "?"
@@ -993,6 +1056,7 @@ class Summaries:
         self._dep = {}
         self._val = {}
         self._ctf = {}
+        self._sp = {}
         self.reg_buf = set()      # 'path::Adt::field' whose content is untrusted bytes / parsed data
         self.reg_scalar = set()   # 'path::Adt::field' holding an untrusted integer
         self.reg_version = 0
@@ -1054,6 +1118,23 @@ class Summaries:
                     clean = cf if clean is None else (clean & cf)
         res = {"tainted": tainted, "clean_fields": clean if (clean and ntuples) else set()}
         self._ctf[key] = res
+        return res
+
+    def scalar_passes(self, fid, param):
+        """does an untrusted integer in `param` reach the callee's return value unclamped?"""
+        key = (fid, param)
+        if key in self._sp:
+            return self._sp[key]
+        self._sp[key] = True
+        fn = self.fn(fid)
+        if fn is None or param > fn.nargs:
+            return True
+        ft = FnTaint(fn, (), (param,), (), (), self, None)
+        res = False
+        for e in fn.exits():
+            if ft.local_roots_at((e, len(fn.stmts(e))), 0):
+                res = True
+        self._sp[key] = res
         return res
 
     def is_validator(self, fid):
